@@ -30,6 +30,12 @@ pub fn replay_sampler2(id: &str, fl: &str, a: &[u64], words: &[u64]) -> Option<(
             let want = l + s * xb;
             Some(((xa == want || (xa.is_nan() && want.is_nan())) && r1.drawn == r2.drawn,
                   format!("{}: sample(loc={:?}, scale={:?}) = {:?}; loc + scale * sample(0,1) = {:?} (standard draw {:?}); words drawn {} vs {}", id, l, s, xa, want, xb, r1.drawn, r2.drawn))) }
+        "zipf" if a.len() >= 2 => { let (n, s) = (f64::from_bits(a[0]), f64::from_bits(a[1])); let d = rd::Zipf::<f64>::new(n, s).ok()?;
+            let mut rng = ScriptRng::new(words, 0x5eed); let x: f64 = d.sample(&mut rng);
+            Some((x >= 1.0 && x <= n, format!("Zipf({:?}, {:?}).sample(words {:?}) = {:?} (support [1, n])", n, s, words, x))) }
+        "zeta" if !a.is_empty() => { let s = f64::from_bits(a[0]); let d = rd::Zeta::<f64>::new(s).ok()?;
+            let mut rng = ScriptRng::new(words, 0x5eed); let x: f64 = d.sample(&mut rng);
+            Some((x >= 1.0, format!("Zeta({:?}).sample(words {:?}) = {:?}", s, words, x))) }
         "normal_tail_pos" | "normal_tail_neg" => {
             // first word fixed by the unit (layer 0, |u| extreme), the decoded words are the tail words
             let neg = id.ends_with("neg");
